@@ -76,6 +76,13 @@ pub fn architectures() -> Vec<Value> {
                "layers": [{"kind": "dense", "out": 6, "act": "leaky", "bias": true},
                           {"kind": "dense", "out": 3, "act": "softmax", "bias": true}],
                "objective": {"kind": "ce"}, "optimizer": {"kind": "adamw", "lr": 0.01, "decay": 0.01}}),
+        // a max-pool layer at a position that is NOT the mirror image of another parameter-free layer (conv, conv, pool, dense)
+        json!({"name": "cnn-conv-conv-pool-sgd", "ints": false, "input": [1, 6, 6], "out": 2,
+               "layers": [{"kind": "conv", "filters": 2, "kernel": [3, 3], "stride": [1, 1], "padding": [1, 1], "act": "tanh"},
+                          {"kind": "conv", "filters": 2, "kernel": [3, 3], "stride": [1, 1], "padding": [0, 0], "act": "tanh"},
+                          {"kind": "pool", "kernel": [2, 2], "stride": [2, 2]},
+                          {"kind": "dense", "out": 2, "act": "linear", "bias": true}],
+               "objective": {"kind": "mse"}, "optimizer": {"kind": "sgd", "lr": 0.05}}),
         // two feedback blocks in one network (each block keeps its own copy of the network's optimizer)
         json!({"name": "two-blocks-adam", "ints": false, "input": [3], "out": 2,
                "layers": [{"kind": "dense", "out": 4, "act": "tanh", "bias": true},
@@ -307,7 +314,9 @@ fn replay_schedule(case: &Value, rep: &mut Report, rng: &mut Rng) {
 }
 
 fn one_param_net(lr: f32) -> (Value, Network) {
-    let arch = json!({"input": [1], "layers": [{"kind": "dense", "out": 1, "act": "linear", "bias": false}],
+    // (the layer is configured with dropout: whichever way `learn` ends -- budget or early stop -- the network must
+    // predict w * x afterwards)
+    let arch = json!({"input": [1], "layers": [{"kind": "dense", "out": 1, "act": "linear", "bias": false, "dropout": 0.5}],
                       "objective": {"kind": "mse"}, "optimizer": {"kind": "sgd", "lr": lr}});
     let net = nets::build(&arch);
     (arch, net)
@@ -368,6 +377,19 @@ fn replay_earlystop_with(case: &Value, rep: &mut Report, embedding: &str, script
         net.learn(&xr, &yr, val, 1, e as i32, print)
     });
     verif::set_val_loss_script(None);
+    // however the call ended (budget used up or stopped early), the network is back in inference mode: its prediction is
+    // the composition of its layers, w * x here (C02 last clause / C09)
+    if out.is_ok() {
+        let w = nets::all_params(&net)[0][0];
+        let p = flat(&net.predict(&x[0]));
+        let flags = verif::flags(&net.layers);
+        if p.len() != 1 || p[0].to_bits() != (w * 1.0f32).to_bits() || flags.iter().any(|f| *f) {
+            let detail = json!({"weight": w, "prediction": p, "flags": flags, "embedding": embedding, "epochs_expected": ran});
+            rep.mismatch("C09", "training_mode_left_on_after_learn_returned", &id, detail.clone(), case);
+            rep.mismatch("C02", "prediction_after_training_is_not_the_composition_of_the_layers", &id, detail.clone(), case);
+            rep.mismatch("C13", "training_mode_left_on_after_learn_returned", &id, detail, case);
+        }
+    }
     // nothing of a `learn` call survives into the next one: the same call again on the same network behaves the same
     verif::set_val_loss_script(if hasval { Some(script.clone()) } else { None });
     rep.checks += 1;
@@ -947,6 +969,13 @@ pub fn thread_jobs() -> Vec<Value> {
                           {"kind": "deconv", "filters": 5, "kernel": [2, 2], "stride": [1, 1], "padding": [0, 0], "act": "tanh"},
                           {"kind": "dense", "out": 2, "act": "linear", "bias": true}],
                "objective": {"kind": "mse"}, "optimizer": {"kind": "adam", "lr": 0.01}}),
+        // overlapping pooling windows (3 x 3, stride 1): one input position is the maximum of several windows, so its
+        // gradient is a sum of several contributions
+        json!({"name": "cnn-overlapping-pool-adam", "ints": false, "input": [1, 7, 7], "out": 2,
+               "layers": [{"kind": "conv", "filters": 2, "kernel": [3, 3], "stride": [1, 1], "padding": [1, 1], "act": "tanh"},
+                          {"kind": "pool", "kernel": [3, 3], "stride": [1, 1]},
+                          {"kind": "dense", "out": 2, "act": "linear", "bias": true}],
+               "objective": {"kind": "mse"}, "optimizer": {"kind": "adam", "lr": 0.01}}),
         // feature maps of 34 x 34 (rows and planes longer than any block a parallel loop would use)
         json!({"name": "cnn-large-maps-sgdm", "ints": false, "input": [1, 34, 34], "out": 2,
                "layers": [{"kind": "conv", "filters": 2, "kernel": [3, 3], "stride": [1, 1], "padding": [1, 1], "act": "tanh"},
@@ -1210,6 +1239,12 @@ pub fn replay_validate(case: &Value, rep: &mut Report, rng: &mut Rng) {
     archs.push(json!({"name": "mlp-hidden-softmax", "ints": false, "input": [4], "out": 3,
         "layers": [{"kind": "dense", "out": 5, "act": "softmax", "bias": true}, {"kind": "dense", "out": 3, "act": "linear", "bias": true}],
         "objective": {"kind": "mse"}}));
+    // a skip connection whose source lies INSIDE a looped range and whose target comes after it
+    archs.push(json!({"name": "mlp-loop-then-skip", "ints": false, "input": [4], "out": 2,
+        "layers": [{"kind": "dense", "out": 4, "act": "tanh", "bias": true}, {"kind": "dense", "out": 4, "act": "tanh", "bias": true},
+                   {"kind": "dense", "out": 4, "act": "sigmoid", "bias": false}, {"kind": "dense", "out": 2, "act": "linear", "bias": true}],
+        "loopback": [{"outof": 2, "into": 1, "iterations": 2, "inskips": false}], "connect": [[2, 3]],
+        "accumulation": {"skip": "add", "loop": "mean"}, "objective": {"kind": "mse"}}));
     archs.push(json!({"name": "cnn-loop", "ints": false, "input": [1, 4, 4], "out": 2,
         "layers": [{"kind": "conv", "filters": 1, "kernel": [3, 3], "stride": [1, 1], "padding": [1, 1], "act": "tanh"},
                    {"kind": "dense", "out": 2, "act": "linear", "bias": true}],
